@@ -57,7 +57,10 @@ func (run *Output) AddWordSpacing(text []rune, additionalSpacing fixed.Int26_6) 
 func (run *Output) AddLetterSpacing(additionalSpacing fixed.Int26_6, isStartRun, isEndRun bool) {
 	isVertical := run.Direction.IsVertical()
 
+	// the spacing is shared between the end of a cluster and the start of the next one:
+	// the two parts must add up to the requested value (odd values included)
 	halfSpacing := additionalSpacing / 2
+	endSpacing := additionalSpacing - halfSpacing
 	for startGIdx := 0; startGIdx < len(run.Glyphs); {
 		startGlyph := run.Glyphs[startGIdx]
 		endGIdx := startGIdx + startGlyph.GlyphCount - 1
@@ -78,11 +81,11 @@ func (run *Output) AddLetterSpacing(additionalSpacing fixed.Int26_6, isStartRun,
 		isLastCluster := startGIdx+startGlyph.GlyphCount >= len(run.Glyphs)
 		if !isLastCluster || !isEndRun {
 			if isVertical {
-				run.Glyphs[endGIdx].YAdvance += halfSpacing
+				run.Glyphs[endGIdx].YAdvance += endSpacing
 			} else {
-				run.Glyphs[endGIdx].XAdvance += halfSpacing
+				run.Glyphs[endGIdx].XAdvance += endSpacing
 			}
-			run.Glyphs[endGIdx].endLetterSpacing += halfSpacing
+			run.Glyphs[endGIdx].endLetterSpacing += endSpacing
 		}
 
 		// go to next cluster
